@@ -5,6 +5,7 @@ from props.common import *
 from props import dtfam, c03
 
 ID = 'C04'
+GRAD_MODES = True
 PROPS_MODULE = 'Props.C04'
 THEOREMS = ['C04_extension_commutes', 'C04_level1_line', 'C04_c2q_q2c', 'C04_legall_kernel', 'C04_qshift_extension_commutes', 'C04_qshift_stage_line', 'C04_qshift_stage_col', 'C04_level1_2d', 'C04_qshift_level_2d', 'C04_pyramid', 'C04_qshift_tables', 'C04_QPR_satisfiable']
 VO = ['theories/Props/C04.vo', 'theories/Props/C18.vo', 'theories/Run/RunDtcwt.vo']
